@@ -25,7 +25,7 @@ def pcName : PC → String
   | .fin => "done"
 
 def statusStr (cs : CS) : String :=
-  let parts := (List.range cs.tasks.length).filterMap fun t =>
+  let parts := (List.range cs.n).filterMap fun t =>
     let k := cs.task t
     if k.controlled then some s!"T{t}:{pcName k.pc}[{joinSep "," (k.results.map resStr)}]" else none
   joinSep " " parts
@@ -57,7 +57,7 @@ def parseCOp (t : Nat) (tok : String) : Option COp :=
     | _ => none
 
 def parkedTasks (cs : CS) : List Nat :=
-  (List.range cs.tasks.length).filter fun t => let k := cs.task t; k.controlled && k.pc.parked && !(k.pc == .idle && k.ops.isEmpty)
+  (List.range cs.n).filter fun t => let k := cs.task t; k.controlled && k.pc.parked && !(k.pc == .idle && k.ops.isEmpty)
 
 def drainGo : Nat → CS → CS
   | 0, cs => cs
@@ -80,9 +80,9 @@ def schedOp (st : Option MSched) (toks : List String) : Option MSched × String 
     | some m =>
       match toks with
       | ["task", prog] =>
-        let t := m.cs.tasks.length
+        let t := m.cs.n
         match allSome ((prog.splitOn ";").map (parseCOp t)) with
-        | some ops => (some { m with cs := { m.cs with tasks := m.cs.tasks ++ [{ ops := ops, allOps := ops }] } }, "ok")
+        | some ops => (some { m with cs := m.cs.spawn { ops := ops, allOps := ops } }, "ok")
         | none => (st, "bad-op")
       | ["go"] =>
         let m := { m with cs := settle 64 m.cs }
@@ -102,7 +102,7 @@ def schedOp (st : Option MSched) (toks : List String) : Option MSched × String 
       | [ev] =>
         if ev == "eof" || ev == "rderr" || ev == "alert" then
           -- the receive loop reacts by calling close(): an uncontrolled task
-          let cs := { m.cs with tasks := m.cs.tasks ++ [{ controlled := false, ops := [.close], allOps := [.close] }] }
+          let cs := m.cs.spawn { controlled := false, ops := [.close], allOps := [.close] }
           let (m, o) := ({ m with cs := settle 64 cs } : MSched).obs
           (some m, o)
         else if ev == "drain" then
@@ -110,7 +110,7 @@ def schedOp (st : Option MSched) (toks : List String) : Option MSched × String 
           let (m, o) := ({ m with cs := cs } : MSched).obs
           let s := cs.s
           -- streams whose open returned ok
-          let opened := (List.range cs.tasks.length).flatMap fun t =>
+          let opened := (List.range cs.n).flatMap fun t =>
             let k := cs.task t
             let openRes := (k.allOps.zip k.results).filterMap fun (op, r) => if op == .open then some r else none
             (openRes.zip k.sids).filterMap fun (r, sid) => if r == .ok then sid else none
